@@ -321,10 +321,17 @@ Definition encode (active : bool) (p : prop) : list row :=
   | Var _ _ _ => []
   | Node _ i _ _ _ s v ch => if active then direct_row s v ch :: concat (rev (map rows ch)) else rows p
   end.
-(* columns: flatten order, top removed when active; with declared bounds *)
+(* dict(zip(ids, flatten)): one entry per id, at the position of the id's first occurrence, holding
+   its last occurrence (flatten() lists an id twice only when two occurrences differ as set elements) *)
+Definition dict_put (acc : list prop) (q : prop) : list prop :=
+  if existsb (fun r => String.eqb (id_of r) (id_of q)) acc
+  then map (fun r => if String.eqb (id_of r) (id_of q) then q else r) acc
+  else acc ++ [q].
+Definition dict_by_id (l : list prop) : list prop := fold_left dict_put l [].
+(* columns: flatten order (one per id), top removed when active; with declared bounds *)
 Definition columns (active : bool) (p : prop) : list (ident * (Z * Z)) :=
   map (fun q => (id_of q, (lo_of q, hi_of q)))
-      (filter (fun q => negb (active && String.eqb (id_of q) (id_of p))) (flatten p)).
+      (filter (fun q => negb (active && String.eqb (id_of q) (id_of p))) (dict_by_id (flatten p))).
 (* dense matrix row over the column list: coefficient = sum of the row's entries for that id *)
 Definition coef_of (r : row) (i : ident) : Z :=
   zsum (map (fun e => if String.eqb (fst e) i then snd e else 0) (snd r)).
